@@ -140,3 +140,6 @@ func (c *Conn) BrokerClosed() bool {
 	defer c.mu.Unlock()
 	return c.brokerClosed
 }
+
+// ID is the connection's number within its broker (the value recorded in Event.Conn).
+func (c *Conn) ID() int { return c.id }
